@@ -272,3 +272,13 @@ package httpgen
 //@   ensures sound_whatever_the_table: spec.tableSound(unwrapMessages) ==> (forall j int :: 0 <= j && j < len(r) ==> r[j] != nil && member(msg.Fields, r[j].Field) && spec.unwrapsMapValue(r[j].Field))
 //@   loop 1 invariant spec.tableSound(unwrapMessages) ==> len(mapFields) == spec.countUnwraps(msg, _i1)
 //@   loop 1 invariant spec.tableSound(unwrapMessages) ==> (forall j int :: 0 <= j && j < len(mapFields) ==> mapFields[j] != nil && member(msg.Fields, mapFields[j].Field) && spec.unwrapsMapValue(mapFields[j].Field))
+
+// ---- per-route parameter tables (C02): one QueryParamConfig line per query-annotated field of every method's request,
+// whatever the field's kind or cardinality (the emitted binder handles lists) ----
+//@ func (g *Generator) generateParamConfigs(gf *protogen.GeneratedFile, service *protogen.Service) (err error)
+//@   requires service != nil
+//@   modifies *
+//@   ensures every_query_field_listed: count("P:{QueryName: ") == old(count("P:{QueryName: ")) + spec.totalQueryParams(service.Methods, len(service.Methods))
+//@   loop 1 invariant count("P:{QueryName: ") == old(count("P:{QueryName: ")) + spec.totalQueryParams(service.Methods, _i1)
+//@   loop 2 invariant count("P:{QueryName: ") == old(count("P:{QueryName: ")) + spec.totalQueryParams(service.Methods, _i1)
+//@   loop 3 invariant count("P:{QueryName: ") == old(count("P:{QueryName: ")) + spec.totalQueryParams(service.Methods, _i1) + _i3 && len(queryParams) == len(annotations.GetQueryParams(service.Methods[_i1].Input))
